@@ -83,6 +83,34 @@ def h_insert(cx, sp, steps, via='operations'):
     cx.eq('point', shapes.evaluate(obj, prm), shapes.evaluate(ref, prm))
 
 
+def h_insert_helper(cx, p, kv, num, dim=2, give_span=False):
+    """helpers.knot_insertion / knot_insertion_kv called directly (default s / span arguments)"""
+    H = geo.M('helpers')
+    n = len(kv) - p - 1
+    K = cx.consts(kv)
+    P = cx.points('P', n, dim)
+    x = cx.real('x', param=True)
+    cx.assume(x > K[p], check=False)
+    cx.assume(x < K[n], check=False)
+    cx.snap(x, K)
+    s = shapes.multiplicity(cx, x, K)
+    if num > p - s:
+        cx.assume(False)
+    span = H.find_span_linear(p, K, n, x)
+    kw = {'num': num}
+    if give_span:
+        kw.update({'s': s, 'span': span})
+    arg_P = [list(q) for q in P]
+    new_P = H.knot_insertion(p, list(K), arg_P, x, **kw)
+    new_kv = H.knot_insertion_kv(list(K), x, span, num)
+    cx.eq('input_unmodified', arg_P, P)
+    cx.check('sizes', len(new_P) == n + num and len(new_kv) == len(kv) + num, 'len(ctrlpts)=%d len(kv)=%d' % (len(new_P), len(new_kv)))
+    c0 = geo.make_curve(cx, p, K, P)
+    c1 = geo.make_curve(cx, p, list(new_kv), [list(q) for q in new_P])
+    u = cx.real('u', lo=K[p], hi=K[n], param=True)
+    cx.eq('point', c1.evaluate_single(u), c0.evaluate_single(u))
+
+
 def _steps_name(steps):
     return '+'.join(''.join('%s%d' % (shapes.DIRS[d], n) for d, n in sorted(s.items())) for s in steps)
 
@@ -126,6 +154,13 @@ def instances(tier):
     spv = spec('volume', (1, 1, 2), ((), (1,), ()), rational=False, doms=[(-1, 1), (-1, 2), (-3, 1)])
     for d in range(3):
         add(spv, [{d: 1}], timeout=1200)
+    from .. import families as fam
+    for p in (1, 2, 3):
+        for m in sorted(set([(1,), (1, 1), (p, 1)])):
+            for num in sorted(set([1, p])):
+                for gs in (False, True):
+                    out.append(inst('helper knot_insertion p%d m%s num%d %s' % (p, m, num, 'given-span' if gs else 'default-span'), h_insert_helper, timeout=600,
+                                    p=p, kv=fam.pattern(p, m), num=num, give_span=gs))
     # surfaces
     surf = [((1, 2), ((1,), ())), ((2, 1), ((), (1,))), ((2, 2), ((1,), (2,)))]
     if not quick:
